@@ -1,5 +1,5 @@
 (* Props/C13.v — cw20: only the current minter mints, and never beyond the cap. Statements only. *)
-Require Import CwPlus.Params CwPlus.Base CwPlus.AMap CwPlus.Cw20Model CwPlus.Cw20Lemmas.
+Require Import CwPlus.Params CwPlus.Base CwPlus.AMap CwPlus.Cw20Model CwPlus.Cw20Lemmas CwPlus.Cw20Check CwPlus.Cw20CheckLemmas.
 Open Scope N_scope.
 
 (* tokens are created only by a Mint call from the address currently registered as minter *)
@@ -25,6 +25,14 @@ Theorem c13_renounce_forever : forall st cs, minter st = None ->
   minter (run st cs) = None /\ supply (run st cs) <= supply st.
 Proof. exact renounced_forever. Qed.
 
+(* in real terms: the tokens that exist (the sum of all balances) never exceed the cap either - the reported
+   supply is their sum in every reachable state (C01) - which is what S_C13 clause 5 checks on the implementation *)
+Theorem c13_balances_within_cap : forall m st cs, instantiate m = Ok st ->
+  forall x c, minter (run st cs) = Some (x, Some c) -> sum (balances (run st cs)) <= c.
+Proof.
+  intros m st cs Hi x c Hm. destruct (reachable_inv01 m st cs Hi) as (_ & E & _).
+  rewrite <- E. apply (reachable_inv_cap m st cs Hi x c Hm).
+Qed.
 Example c13_nonvacuous :
   exists st, instantiate (mkInit [(Some 1, 500)] (Some (Some 2, Some 600))) = Ok st /\
     is_ok (step st (mkBlock 1 1) 2 (Mint (Some 1) 100)) = true /\
@@ -36,3 +44,4 @@ Print Assumptions c13_mint_guard.
 Print Assumptions c13_cap.
 Print Assumptions c13_handover_guard.
 Print Assumptions c13_renounce_forever.
+Print Assumptions c13_balances_within_cap.
